@@ -14,6 +14,7 @@ import S3V.Driver.Upload
 import S3V.Driver.M2
 import S3V.Driver.Bandwidth
 import S3V.Driver.Crt
+import S3V.Driver.ProcPool
 
 namespace S3V.Driver
 
@@ -25,6 +26,7 @@ structure DState where
   m2 : M2D := {}
   bw : S3V.Bandwidth.Bucket := { maxRate := 1 }
   crt : S3V.Crt.Crt := S3V.Crt.Crt.init 128
+  pp : S3V.ProcPool.S := S3V.ProcPool.S.init 1
 
 def DState.init : DState := {}
 
@@ -33,6 +35,7 @@ def step (st : DState) (line : String) : DState × String :=
   match toks with
   | ["reset"] => (DState.init, "ok")
   | "plan" :: rest => (st, planStep rest)
+  | "pp" :: rest => let r := ppStep st.pp rest; ({ st with pp := r.1 }, r.2)
   | "crt" :: rest => let r := crtStep st.crt rest; ({ st with crt := r.1 }, r.2)
   | "bw" :: rest => let r := bwStep st.bw rest; ({ st with bw := r.1 }, r.2)
   | "exec" :: _ | "xfer" :: _ | "fs" :: _ => let r := m2Step st.m2 toks; ({ st with m2 := r.1 }, r.2)
